@@ -492,6 +492,12 @@ class IPAddr6 (_AddrBase):
         raise RuntimeError("Bad address format " + str(addr))
       if len(segs) < 3 or len(segs) > 8:
         raise RuntimeError("Bad address format " + str(addr))
+      if '::' not in addr and len(segs) != 8:
+        # Only a "::" stands for groups that are not written out
+        raise RuntimeError("Bad address format " + str(addr))
+      if ((addr.startswith(':') and not addr.startswith('::'))
+          or (addr.endswith(':') and not addr.endswith('::'))):
+        raise RuntimeError("Bad address format " + str(addr))
 
       # Parse the two "sides" of the address (left and right of the optional
       # dropped section)
